@@ -96,17 +96,19 @@ func runC01(opt *Options) int {
 	// (b) kernel K3: namer
 	la := &laRun{
 		Opt:  opt,
-		Pkgs: []string{"namer", "config"},
+		Pkgs: []string{"namer", "config", "generator"},
 		Kernels: []layera.Kernel{
 			{Name: "K3.namer", Pkg: "namer", Harness: "VerifHarness_C01_Namer", Unwind: 40, MaxPaths: 2000000},
 			// the package clause of an emitted file: the last output:package line alone decides path and name
 			{Name: "K8.outputpackage", Pkg: "config", Harness: "VerifHarness_C15_OutputPackage", Unwind: 64, Stub: []string{"github.com/jmattheis/goverter/method.Parse"}},
 			// ... and the existing package at the output location can only be found if it is pre-loaded for every converter
 			{Name: "K8.getpackages", Pkg: "config", Harness: "VerifHarness_C15_GetPackages", Unwind: 64, NoMapPermute: true},
+			// the names of all declared methods (update methods included) are reserved before helpers are named
+			{Name: "K8.setup", Pkg: "generator", Harness: "VerifHarness_C17_Setup", Unwind: 16},
 			// loop index / map / helper names never repeat within a method (declared twice, shadowed)
 			{Name: "K9.namerloops", Pkg: "namer", Harness: "VerifHarness_C13_NamerLoops", Unwind: 200, LoopsBounded: true},
 		},
-		Funcs:  []string{"config.parseConverterLine (output:package arm)", "config.getPackages", "namer.New", "namer.(*Namer).Register", "namer.(*Namer).Name", "namer.(*Namer).Index", "namer.(*Namer).Map"},
+		Funcs:  []string{"config.parseConverterLine (output:package arm)", "config.getPackages", "namer.New", "namer.(*Namer).Register", "namer.(*Namer).Name", "namer.(*Namer).Index", "namer.(*Namer).Map", "generator.setupGenerator"},
 		Bounds: "namer states built by <= 3 Register calls with arbitrary names of 1..3 bytes over {c,i,j,k,e,y,v,a,l,u,2,3} (contains every identifier the namer itself proposes up to 3 bytes), requested base name likewise; unwind 40 asserted",
 		Assume: []string{
 			"gate (not a solver verdict): every file emitted for the corpus (F-name, F-shape, F-custom) is type-checked with go/types together with its input package and compared with the declared API; a failure is reported as a C01 violation",
